@@ -204,10 +204,20 @@ class Acc:
 
 
 def guarded(fn, *a, **kw):
-    """Call the implementation; return ("ok", value) or ("raises", exc)."""
+    """Call the implementation; return ("ok", value) or ("raises", exc).
+
+    The text / origin of the exception are computed at once and its traceback frames are cleared, so that a caught
+    exception does not keep the failed call's locals (tensors, file objects, exported buffers) alive.
+    """
     try:
         return "ok", fn(*a, **kw)
     except Exception as e:  # noqa: BLE001 - every exception is an outcome
+        try:
+            e._verif_text = _exc_text(e)
+            e._verif_in_deepali = _raised_in_deepali(e)
+            traceback.clear_frames(e.__traceback__)
+        except Exception:  # pragma: no cover
+            pass
         return "raises", e
 
 
@@ -215,7 +225,7 @@ def exc_sig(e: BaseException) -> str:
     return type(e).__name__
 
 
-def exc_text(e: BaseException, limit: int = 300) -> str:
+def _exc_text(e: BaseException, limit: int = 300) -> str:
     s = f"{type(e).__name__}: {e}"
     tb = traceback.extract_tb(e.__traceback__)
     where = ""
@@ -226,6 +236,16 @@ def exc_text(e: BaseException, limit: int = 300) -> str:
     return (s[:limit] + where).replace("\n", " ")
 
 
-def raised_in_deepali(e: BaseException) -> bool:
+def exc_text(e: BaseException, limit: int = 300) -> str:
+    t = getattr(e, "_verif_text", None)
+    return t if t is not None else _exc_text(e, limit)
+
+
+def _raised_in_deepali(e: BaseException) -> bool:
     tb = traceback.extract_tb(e.__traceback__)
     return any("/deepali/" in fr.filename for fr in tb)
+
+
+def raised_in_deepali(e: BaseException) -> bool:
+    t = getattr(e, "_verif_in_deepali", None)
+    return t if t is not None else _raised_in_deepali(e)
